@@ -38,7 +38,8 @@ def ping_facts(ctx):
             incs.add(write_value(ctx, e))
     if len(incs) != 1:
         raise Unsupported("Ping::ping does not write one constant: %s" % incs)
-    f, paths, cfg = O.run_fn(ctx, r"::drop\(_1: &mut FlagOnDrop\)", inline=O.INL_PING, key="ping")
+    close_rx, close_ty, shared = O.ping_close_writer(ctx)
+    f, paths, cfg = O.run_fn(ctx, close_rx, inline=O.INL_PING, key="ping")
     cl = set()
     for p in paths:
         for e in O.calls(p, r"rustix::io::write"):
